@@ -402,7 +402,17 @@ impl Watchpoint {
         target.last_value = var;
 
         let mut hw_brkpt = HardwareBreakpoint::new(address, size, condition);
-        let state = hw_brkpt.enable(debugger.debugee.tracee_ctl())?;
+        let state = match hw_brkpt.enable(debugger.debugee.tracee_ctl()) {
+            Ok(state) => state,
+            Err(e) => {
+                // the watchpoint is refused: do not leave its companion breakpoint behind
+                if let Some(brkpt) = target.companion {
+                    let wp_num = GLOBAL_WP_COUNTER.load(Ordering::Relaxed);
+                    _ = debugger.breakpoints.decrease_companion_rc(brkpt, wp_num);
+                }
+                return Err(e);
+            }
+        };
 
         let this = Self {
             number: GLOBAL_WP_COUNTER.fetch_add(1, Ordering::Relaxed),
